@@ -31,7 +31,11 @@ Kinds == <<
   E("no-name",         Absent,                          "/devices/pci0000:00/usb1/1-4/input/input15", "120013", FullKeys),
   E("no-sysfs",        "Ghost keyboard",                Absent, "120013", FullKeys),
   E("no-ev",           "Plain keys",                    "/devices/pci0000:00/usb1/1-5/input/input16", Absent, FullKeys),
-  E("virtual-mouse",   "Virtual Mouse",                 "/devices/virtual/input/input21", "17", MouseKeys)
+  E("virtual-mouse",   "Virtual Mouse",                 "/devices/virtual/input/input21", "17", MouseKeys),
+  \* a name padded with a blank inside the quotes (the blank belongs to the name the kernel reports)
+  E("padded-name",     "SINO WEALTH Gaming KB ",        "/devices/pci0000:00/usb1/1-6/input/input17", "120013", FullKeys),
+  \* on the edge of the mouse heuristic: "Mouse" in the name, full key map, no EV line of its own
+  E("no-ev-mouse",     "Razer Mouse",                   "/devices/pci0000:00/usb1/1-7/input/input18", Absent, FullKeys)
 >>
 KindIds == 1..Len(Kinds)
 
@@ -62,16 +66,17 @@ Keyboardish(e) ==
   LET full == e.key \in {FullKeys, MouseKeys, ScrollKeys}
       scroll == e.key = ScrollKeys
       noleds == e.ev \notin {"120013"}
-      mouseName == e.name \in {"GXT 4155 Gaming Mouse", "Gaming Mouse Keyboard", "Virtual Mouse"}
+      mouseName == e.name \in {"GXT 4155 Gaming Mouse", "Gaming Mouse Keyboard", "Virtual Mouse", "Razer Mouse"}
       kbdName == e.name \in {"AT Translated Set 2 keyboard", "Gaming Mouse Keyboard", "Ghost keyboard"}
       mousey == (IF scroll THEN 1 ELSE 0) + (IF noleds THEN 1 ELSE 0) + (IF mouseName THEN 1 ELSE 0) >= 2
   IN full /\ (kbdName \/ ~mousey) /\ e.name # "cros_ec"
 
 \* exclude patterns and the names they match (glob semantics over the finite universe of names)
 AllNames == {NameOf(Kinds[i]): i \in KindIds}
-Patterns == <<"*Mouse*", "AT Translated Set 2 keyboard", "*", "totalmapper", "AT*", "*keyboard", "?T Translated Set 2 keyboard", "Nothing*", "*Keys", "Compact?Keys">>
+Patterns == <<"*Mouse*", "AT Translated Set 2 keyboard", "*", "totalmapper", "AT*", "*keyboard", "?T Translated Set 2 keyboard", "Nothing*", "*Keys", "Compact?Keys",
+              "SINO WEALTH Gaming KB ", "SINO WEALTH Gaming KB", "*KB?", "* ">>
 MatchSet(p) ==
-  CASE p = "*Mouse*" -> {"GXT 4155 Gaming Mouse", "Gaming Mouse Keyboard", "Virtual Mouse"}
+  CASE p = "*Mouse*" -> {"GXT 4155 Gaming Mouse", "Gaming Mouse Keyboard", "Virtual Mouse", "Razer Mouse"}
     [] p = "AT Translated Set 2 keyboard" -> {"AT Translated Set 2 keyboard"}
     [] p = "*" -> AllNames
     [] p = "totalmapper" -> {"totalmapper"}
@@ -81,5 +86,9 @@ MatchSet(p) ==
     [] p = "Nothing*" -> {}
     [] p = "*Keys" -> {"Compact Keys"}
     [] p = "Compact?Keys" -> {"Compact Keys"}
+    [] p = "SINO WEALTH Gaming KB " -> {"SINO WEALTH Gaming KB "}     \* the exact name, blank included
+    [] p = "SINO WEALTH Gaming KB" -> {}                              \* without the blank it is a different string
+    [] p = "*KB?" -> {"SINO WEALTH Gaming KB "}
+    [] p = "* " -> {"SINO WEALTH Gaming KB "}
 Excluded(name, pats) == \E i \in 1..Len(pats): name \in MatchSet(pats[i])
 =============================================================================
